@@ -44,7 +44,7 @@ import (
 // ---------------------------------------------------------------------------
 // documents, addressed by a small integer so that a case is replayable
 
-const nDocs = 52
+const nDocs = 53
 
 // Documents numbered dynBase and above are made on demand, each with private operators of its own (inside a
 // BX/EX compatibility section, ISO 32000-1 7.8.2, Table 32): the first parse of each is the first time the process
@@ -154,6 +154,25 @@ func getDoc(i int) *docSpec {
 	switch {
 	case i >= dynBase:
 		d = &docSpec{kind: "pdf", ext: ".pdf", data: dynDoc(i)}
+	case i >= 52:
+		// two pages with a raised mark each: on the short title page the marks make up a large share of the
+		// baselines (its line grouping is decided by the gaps between baselines), on the full page behind it they
+		// do not - whatever a line detector concluded on the first page must not reach the second
+		var p1, p2 strings.Builder
+		p1.WriteString("BT /F1 12 Tf 1 0 0 1 72 700 Tm (Quarterly report) Tj ET\nBT /F1 8 Tf 1 0 0 1 162 704 Tm (1) Tj ET\nBT /F1 12 Tf 1 0 0 1 72 680 Tm (Prepared by the finance team) Tj ET\n")
+		p2.WriteString("BT /F1 12 Tf 1 0 0 1 72 700 Tm (Energy equals mc) Tj ET\nBT /F1 8 Tf 1 0 0 1 168 704 Tm (2) Tj ET\n")
+		for k := 1; k <= 11; k++ {
+			fmt.Fprintf(&p2, "BT /F1 12 Tf 1 0 0 1 72 %d Tm (Body line number %d of the page) Tj ET\n", 700-14*k, k)
+		}
+		d = &docSpec{kind: "pdf", ext: ".pdf", data: rawpdf.Build(map[int]string{
+			1: "<< /Type /Catalog /Pages 2 0 R >>",
+			2: "<< /Type /Pages /Kids [3 0 R 4 0 R] /Count 2 /MediaBox [0 0 612 792] /Resources << /Font << /F1 5 0 R >> >> >>",
+			3: "<< /Type /Page /Parent 2 0 R /Contents 6 0 R >>",
+			4: "<< /Type /Page /Parent 2 0 R /Contents 7 0 R >>",
+			5: "<< /Type /Font /Subtype /Type1 /BaseFont /Helvetica >>",
+			6: rawpdf.Stream("", p1.String()),
+			7: rawpdf.Stream("", p2.String()),
+		}, 1)}
 	case i >= 50:
 		// packages of the two container formats the repository has no sample of: an EPUB (50) and a presentation (51)
 		if i == 50 {
@@ -309,7 +328,7 @@ func docPath(i int) string {
 	return p
 }
 
-var ops = []string{"text", "markdown", "jsonl", "csv", "document", "contentstream", "sharedreader", "chunkops", "htmlnav", "tables", "extractorreuse", "coldburst", "facadereuse"}
+var ops = []string{"text", "markdown", "jsonl", "csv", "document", "contentstream", "sharedreader", "chunkops", "htmlnav", "tables", "extractorreuse", "coldburst", "facadereuse", "layoutpages"}
 
 // runOp performs one extraction and returns a canonical byte string of its result.
 func runOp(doc int, op string) string {
@@ -528,6 +547,36 @@ func runOp(doc int, op string) string {
 		close(start)
 		wg.Wait()
 		return strings.Join(out, "\n====\n")
+	case "layoutpages":
+		// the layout views of the whole document are those of its pages read alone, one after the other: what a
+		// detector learnt on one page does not reach the next
+		if d.kind != "pdf" {
+			return "n/a"
+		}
+		n, err := open().PageCount()
+		if err != nil || n < 2 || n > 8 {
+			return fmt.Sprintf("n/a pages=%d err=%v", n, err)
+		}
+		dumpLines := func(e *tabula.Extractor) string {
+			ls, err := e.Lines()
+			var sb strings.Builder
+			fmt.Fprintf(&sb, "err=%v;", err)
+			for _, l := range ls {
+				fmt.Fprintf(&sb, "%q|", l.Text)
+			}
+			return sb.String()
+		}
+		whole := dumpLines(open())
+		if !strings.HasPrefix(whole, "err=<nil>;") {
+			return "n/a (a page cannot be read): " + whole
+		}
+		var parts strings.Builder
+		parts.WriteString("err=<nil>;")
+		for p := 1; p <= n; p++ {
+			one := dumpLines(open().Pages(p))
+			parts.WriteString(strings.TrimPrefix(one, "err=<nil>;"))
+		}
+		return fmt.Sprintf("%s\nlines of the whole document are the lines of its pages read alone: equal=%v", whole, whole == parts.String())
 	case "facadereuse":
 		// one tabula.Extractor value asked several times, and extractors derived from it after it has been used:
 		// every answer is the one a fresh extractor gives ("extraction is a pure function of the document")
@@ -731,6 +780,9 @@ func compare(where string, doc int, op, got string) error {
 	if op == "extractorreuse" && strings.Contains(got, "equal=false") {
 		return fmt.Errorf("%s: a text.Extractor used for a second content stream: %s", where, got)
 	}
+	if op == "layoutpages" && strings.Contains(got, "equal=false") {
+		return fmt.Errorf("%s: Lines() of document %d differ from the lines of its pages read alone: %.300s", where, doc, got)
+	}
 	if op == "facadereuse" && strings.Contains(got, "equal=false") {
 		return fmt.Errorf("%s: one tabula.Extractor of document %d asked again (or derived from after use) answers differently from a fresh one: %.400s", where, doc, got)
 	}
@@ -922,7 +974,7 @@ func TestSpecialDocuments(t *testing.T) {
 		opsFor := []string{"text", "facadereuse"}
 		switch getDoc(doc).kind {
 		case "pdf":
-			opsFor = append(opsFor, "sharedreader", "chunkops")
+			opsFor = append(opsFor, "sharedreader", "chunkops", "layoutpages")
 		case "html":
 			opsFor = append(opsFor, "htmlnav", "chunkops")
 		default:
